@@ -113,6 +113,39 @@ INFO = {
     'C19-init-tests-constructor-argument-not-inherited-loop': ('a node added without loop= to a pipeline whose loop is not the current one', '-'),
     'C20-dask-accumulate-first-element-ignores-with-state': ('Dask accumulate with with_state=True and no start value', '-'),
     'C20-dask-accumulate-init-swaps-start-and-returns-state': ('stream.accumulate(func, start) with start passed positionally on a DaskStream', 'positional constructor contracts (signature order)'),
+    # round 4 ------------------------------------------------------------------------------------------------------------
+    'C01-flatten-none-sentinel-drops-batch': ('a batch whose first element is None', 'None added to the alphabet of the bounded flatten enumeration (symbolic: counter-model did not replay, undecided)'),
+    'C01-pluck-tuple-pick-treated-as-list': ('pluck with a tuple that is itself one key of the elements', 'pluck contract variants (tuple key, list pick)'),
+    'C03-emit-thread-flag-unconditional': ('threaded mode, a consumer on the loop thread emitting twice into a threaded stream', '-'),
+    'C03-sliding-window-return-inside-full-branch-c03': ('sliding_window(n>=2), one of the first n-1 elements, a slow consumer', '-'),
+    'C04-accumulate-first-element-drops-metadata': ('accumulate without start / with_state, first element with a ref, a holding downstream', 'named constants (no_default, None) decoded into the replay (was undecided)'),
+    'C04-sliding-window-retains-only-when-emitting': ('return_partial=False and n >= 2', '-'),
+    'C05-zip-latest-releases-every-slot': ('ref-carrying elements on the lossless input', 'per-contract time budget after a failure (the check ran > 18 min before)'),
+    'C05-map-async-release-only-on-success': ('a mapped coroutine that raises, stop_on_exception=False', '-'),
+    'C06-window-getitem-loses-expanding': ('a column selected after .expanding()', 'expanding ops in the C06 bounded enumeration'),
+    'C06-accumulate-state-after-emit-c06': ('a consumer that raises or re-enters the source', 'accumulate.update tagged for the dataframe properties'),
+    'C07-accumulate-state-after-emit-c07': ('a consumer that raises or re-enters the source', 'accumulate.update tagged for the dataframe properties'),
+    'C07-window-accumulator-updates-state-dict': ('with_state / start checkpoint path', 'clause "new state is a fresh object, the old one untouched"; dict.update on string-keyed dicts'),
+    'C10-emit-reads-current-metadata-attribute': ('>= 2 downstreams and a re-entrant emit through the same node', 're-entrancy modelled in the _emit contract (attributes havocked after each downstream call)'),
+    'C10-latest-skips-bookkeeping-without-metadata': ('an element without metadata after one with metadata', '-'),
+    'C12-windowed-groupby-groupers-not-copied': ('windowed groupby keyed by a streaming series, state reused', 'streaming-series grouper in the bounded resume enumeration'),
+    'C12-ewmean-seeded-flag-on-object': ('ewm resumed with start=<state>', '-'),
+    'C02-flatten-returns-last-emit-only': ('a batch of >= 2 items and a native-coroutine consumer', 'contracts serving C03 also serve C02 and C16'),
+    'C02-zip-capacity-check-before-append': ('one input maxsize elements ahead of another', '-'),
+    'C08-partition-timer-armed-with-key-spec': ('partition(n, timeout=T, key=...) and a partial batch', '-'),
+    'C08-sink-passes-callback-result-through': ('a sink callback returning a plain value below timed_window', 'sink.update tagged for every property whose nodes await its result'),
+    'C09-kafka-reset-flip-inside-partition-loop': ('latest, >= 2 partitions, no committed offsets', 'frame clause: the reset entry is not changed by the per-partition body'),
+    'C09-scatter-retain-after-yield-c09': ('from_kafka_batched(dask=True)', 'scatter / gather segments tagged C09'),
+    'C11-window-accumulator-in-place-c11': ('expanding / ewm resumed with a saved state and a non-empty example', '-'),
+    'C11-ewm-span-floor-division': ('ewm(span=even or non-integer)', 'span / alpha / halflife variants in the bounded enumeration'),
+    'C13-rate-limit-sleeps-until-next-slot': ('an element arriving less than one interval after a delayed one', '-'),
+    'C13-convert-interval-numpy-scalars': ('interval given as a numpy integer / float32', 'numpy scalars in the bounded convert_interval check'),
+    'C14-sink-flattened-awaitable-test': ('the consumer of latest() is a sink whose callback returns a plain value', 'sink.update tagged C14'),
+    'C14-emit-iterates-live-downstreams-c14': ('latest() with >= 2 consumers, one detaching itself while served', '_emit contract tagged for every delivery property'),
+    'C15-sink-registers-only-with-upstream': ('a sink built detached, connected later, then unreferenced', '-'),
+    'C15-combine-latest-emit-on-falsy-index-c15': ('emit_on=0 and a later connect / disconnect', '-'),
+    'C16-windowed-groupby-groupers-in-place-c16': ('windowed groupby keyed by a stream, a batch on which the aggregation raises', 'bounded resume enumeration also registered for C16'),
+    'C16-emit-retains-inside-loop': ('the emitting node introduces the counter, >= 2 branches, a later one raises', '-'),
 }
 
 
